@@ -9,7 +9,8 @@ import collections
 import copy
 import json
 import os
-from typing import Dict, List
+import types
+from typing import Dict, List, Mapping, Sequence
 
 from jsonargparse import ActionConfigFile, ArgumentParser
 
@@ -27,7 +28,12 @@ KEYS = {
     "g.l2": ("list", []),
     "d": ("dict", {"z": 0}),
     "od": ("dict", {"z": 0}),  # declared with an OrderedDict as default: a mapping type the library does not copy
+    "mp": ("dict", {"z": 0}),  # Mapping with a MappingProxyType default
+    "hy_l": ("list", [0]),  # option spelled --hy-l
+    "sq": ("list", [0]),  # Sequence with a tuple default
+    "ll": ("llist", [[0]]),  # list of lists
 }
+ARGV_NAME = {"hy_l": "hy-l"}
 
 
 def build(default_files, default_env=False, mode="yaml"):
@@ -43,6 +49,10 @@ def build(default_files, default_env=False, mode="yaml"):
     p.add_argument("--g.l2", type=List[int], default=[])
     p.add_argument("--d", type=Dict[str, int], default={"z": 0})
     p.add_argument("--od", type=Dict[str, int], default=collections.OrderedDict(z=0))
+    p.add_argument("--mp", type=Mapping[str, int], default=types.MappingProxyType({"z": 0}))
+    p.add_argument("--hy-l", type=List[int], default=[0])
+    p.add_argument("--sq", type=Sequence[int], default=(0,))
+    p.add_argument("--ll", type=List[List[int]], default=[[0]])
     return p
 
 
@@ -65,6 +75,11 @@ def gen_assignments(rng, src, n, allow=("plain", "append", "dictitem")):
                 out.append((key, "append", rng.choice([tag, [tag], [tag, tag + 1], []])))
             else:
                 out.append((key, "plain", rng.choice([[tag], [tag, tag + 1], []])))
+        elif typ == "llist":
+            if rng.random() < 0.5 and "append" in allow:
+                out.append((key, "append", rng.choice([[[tag]], [[tag], [tag + 1, tag + 2]], []])))
+            else:
+                out.append((key, "plain", rng.choice([[[tag]], [[tag, tag + 1], []], []])))
         elif typ == "dict":
             r = rng.random()
             if r < 0.45 and "dictitem" in allow:
@@ -123,8 +138,8 @@ def effective(assigns):
 def render_argv(rng, a):
     key, kind, val = a[0], a[1], a[2]
     if kind == "dictitem":
-        return rng.choice([[f"--{key}.{a[3]}={val}"], [f"--{key}.{a[3]}", str(val)]])
-    opt = f"--{key}" + ("+" if kind == "append" else "")
+        return rng.choice([[f"--{ARGV_NAME.get(key, key)}.{a[3]}={val}"], [f"--{ARGV_NAME.get(key, key)}.{a[3]}", str(val)]])
+    opt = f"--{ARGV_NAME.get(key, key)}" + ("+" if kind == "append" else "")
     text = val if isinstance(val, str) else json.dumps(val)
     return rng.choice([[f"{opt}={text}"], [opt, text]])
 
@@ -168,6 +183,12 @@ def scenario(ctx, i, rng):
                 src += 1
             for path, assigns in sorted(files, key=lambda x: x[0]):
                 sources.append(("default_file", effective(assigns)))
+            if rng.random() < 0.3:
+                # a file that the pattern already matched, listed again after it: it applies again at that position
+                path, assigns = rng.choice(files)
+                default_files = default_files + [path]
+                sources.append(("default_file", effective(assigns)))
+                kinds_present.append("default_file_listed_twice")
         else:
             default_files = [p for p, _ in files]
             if rng.random() < 0.3:
@@ -326,8 +347,10 @@ def _compare(ctx, o, expected, sources, w, method, attempt):
         for part in key.split("."):
             cur = cur.get(part) if isinstance(cur, dict) else None
         exp = expected[key]
-        if KEYS[key][0] == "dict" and isinstance(cur, dict):
-            cur = dict(cur)  # an untouched OrderedDict default stays an OrderedDict
+        if KEYS[key][0] == "dict" and isinstance(cur, Mapping):
+            cur = dict(cur)  # an untouched OrderedDict / MappingProxyType default stays what it is
+        if KEYS[key][0] == "list" and isinstance(cur, tuple):
+            cur = list(cur)  # an untouched tuple default of a Sequence
         if cur != exp or type(cur) is not type(exp):
             # which source wrote the observed value / which should have
             last = [s[0] for s in sources if any(a[0] == key for a in s[1])]
